@@ -213,6 +213,10 @@ class Sched:
         self.overlap = 0
         self.sites = set()
         self.miss_calls = 0
+        self.missing = [None] * n       # symbol a thread is computing on the cache-miss path
+        self.double_miss = 0            # two threads on the miss path for the same symbol at once
+        self.in_aug = [False] * n
+        self.double_aug = 0             # two threads inside the augmenting-path search at once
         self.current = None
         self._xi = 0                    # index into explicit switches
         self._ei = 0
@@ -249,8 +253,25 @@ class Sched:
             self.sems[tid].acquire()    # run is over (deadlock/budget): park for good
         self.step += 1
         self.tsteps[tid] += 1
-        if offset == 0 and code.co_name == "_process_atom_selfies_no_cache":
-            self.miss_calls += 1
+        if offset == 2:     # first instruction after RESUME: function entry (reach probes only)
+            name = code.co_name
+            if name == "_process_atom_selfies_no_cache":
+                self.miss_calls += 1
+                try:
+                    sym = sys._getframe(2).f_locals.get("symbol")
+                except Exception:
+                    sym = None
+                if sym is not None and any(m == sym for i, m in enumerate(self.missing) if i != tid):
+                    self.double_miss += 1
+                self.missing[tid] = sym
+            elif name == "process_atom_symbol":
+                self.missing[tid] = None
+            elif name == "_find_augmenting_path":
+                self.in_aug[tid] = True
+                if sum(self.in_aug) > 1:
+                    self.double_aug += 1
+            elif name in ("encoder", "decoder"):
+                self.in_aug[tid] = False
         if self.step > self.budget:
             self.outcome = "step-budget"
             self.done.set()
@@ -402,6 +423,7 @@ def run(sf, spec):
         "steps": S.step, "tsteps": S.tsteps, "switches": S.switches, "exits": S.exits, "first": first,
         "lock_ops": S.lock_ops, "late": S.late, "window_switches": S.window_switches,
         "overlap": S.overlap, "sites": sorted(S.sites), "miss_calls": S.miss_calls,
+        "double_miss": S.double_miss, "double_aug": S.double_aug,
         "digest": h.hexdigest(),
     }
 
